@@ -295,9 +295,39 @@ def bl5(ctx, R):
             calls_write = any(isinstance(c, ast.Call) and call_name(c) == "write_data" for st in body for c in ast.walk(st))
             if calls_write:
                 p_write = alpha(tuple(conds))
-    R.check(p_size is not None and p_write is not None and p_size == p_write, "writer.TdmsSegment._data_size/_write_data::same objects", ds_f.where(),
-            "declared and written data select the same objects of self.objects, in order (%s)" % (show(p_size)[:80] if p_size else None),
-            "declared size sums objects selected by %s, data is written for objects selected by %s" % (show(p_size)[:100] if p_size else None, show(p_write)[:100] if p_write else None))
+    def conjuncts(p):
+        """a selection as the set of its conjuncts; a comparison with a class reads the same with `is not` and `!=`"""
+        out = []
+
+        def add(t):
+            if isinstance(t, tuple) and t and t[0] == "and":
+                for x in t[1:]:
+                    add(x)
+            elif isinstance(t, tuple) and t and not isinstance(t[0], str):
+                for x in t:
+                    add(x)
+            else:
+                if isinstance(t, tuple) and len(t) == 2 and t[0] == "not" and isinstance(t[1], tuple) and len(t[1]) == 4 and t[1][0] == "cmp" and t[1][1] in ("is", "=="):
+                    t = ("cmp", "is not", t[1][2], t[1][3])
+                if isinstance(t, tuple) and len(t) == 4 and t[0] == "cmp" and t[1] == "!=" and isinstance(t[3], tuple) and t[3] and t[3][0] == "class":
+                    t = ("cmp", "is not", t[2], t[3])
+                out.append(t)
+        add(p)
+        return set(out)
+    key_so = "writer.TdmsSegment._data_size/_write_data::same objects"
+    if p_size is None or p_write is None:
+        R.check(False, key_so, ds_f.where(), "", "declared size sums objects selected by %s, data is written for objects selected by %s" % (
+            show(p_size)[:100] if p_size else None, show(p_write)[:100] if p_write else None))
+    else:
+        cs, cw = conjuncts(p_size), conjuncts(p_write)
+        if p_size == p_write or cs == cw:
+            R.ok(key_so, ds_f.where(), "declared and written data select the same objects of self.objects, in order (%s)" % show(p_size)[:80])
+        elif cs < cw or cw < cs:
+            R.violation(key_so, ds_f.where(), "declared size sums objects selected by %s, data is written for objects selected by %s" % (
+                show(p_size)[:100], show(p_write)[:100]))
+        else:
+            R.unrecognised(key_so, ds_f.where(), "the two selections are written differently (%s / %s) and neither is the other with a condition dropped" % (
+                show(p_size)[:80], show(p_write)[:80]))
     # the index is present for exactly these objects
     from .sym import eval_cond
     key = "writer.TdmsSegment.raw_data_index::same predicate"
@@ -379,6 +409,9 @@ def bl5(ctx, R):
                     kinds.append(("bytes", it))
                 elif isinstance(a, ast.Attribute) and a.attr == "bytes" and isinstance(a.value, ast.Call) and dotted(a.value.func) == "Uint32":
                     kinds.append(("offset", it))
+                elif isinstance(a, ast.Call) and call_name(a) in ("struct.pack", "_struct_pack") and len(a.args) == 2 and isinstance(a.args[0], ast.Constant) \
+                        and a.args[0].value in ("<L", "<I"):
+                    kinds.append(("offset", it))      # the same four little-endian bytes, packed directly
                 else:
                     kinds.append(("?", it))
         pre.append(st)
@@ -394,6 +427,9 @@ def bl5(ctx, R):
     if not kinds and len(wregion) > 1:
         R.undecided("writer.write_string_values::offsets then bytes over the encoded strings", wsv.where(),
                     "the offsets and the bytes are not written by loops of write_string_values itself (delegated to %s): not decided" % wregion[1].qual)
+    elif any(k == "?" for k, _ in kinds):
+        R.unrecognised("writer.write_string_values::offsets then bytes over the encoded strings", wsv.where(),
+                       "a write of write_string_values is neither `<loop variable>` nor `Uint32(<offset>).bytes`: %s" % [(k, show(alpha(it))[:60]) for k, it in kinds])
     else:
         R.check(sorted(k for k, _ in kinds) == ["bytes", "offset"] and all(over_enc(it) for _, it in kinds), "writer.write_string_values::offsets then bytes over the encoded strings", wsv.where(),
                 "one Uint32 end offset and the encoded bytes per value, over the same encoded list", "string data is written as %s" % [(k, show(alpha(it))[:60]) for k, it in kinds])
@@ -551,21 +587,42 @@ def _subst_all(v, binding):
     return v
 
 
-def _key_reaches_ordering(prog, fi, key_expr):
-    """sort key reaches writer._path_ordering_key (directly, through a lambda, or through a helper)"""
+def find_ordering_key(prog):
+    """the function that ranks an object path (root < group < channel): writer._path_ordering_key, or - renamed, moved, turned into a
+    method of the path class - the one function that tests .is_root and .is_group of its argument and returns integer constants"""
+    try:
+        return prog.func("writer._path_ordering_key")
+    except AnchorMissing:
+        pass
+    cands = []
+    for f in prog.functions.values():
+        if not f.params:
+            continue
+        p = f.params[0]
+        attrs = {n.attr for n in ast.walk(f.node) if isinstance(n, ast.Attribute) and isinstance(n.value, ast.Name) and n.value.id == p}
+        rets = [n.value for n in walk_body(f.node) if isinstance(n, ast.Return)]
+        if {"is_root", "is_group"} <= attrs and rets and all(isinstance(r, ast.Constant) and type(r.value) is int for r in rets):
+            cands.append(f)
+    return cands[0] if len(cands) == 1 else None
+
+
+def _key_reaches_ordering(prog, fi, key_expr, pk=None):
+    """sort key reaches the ordering function (directly, through a lambda, or through a helper)"""
     if key_expr is None:
         return False
-    if dotted(key_expr) == "_path_ordering_key":
+    name = pk.name if pk is not None else "_path_ordering_key"
+    is_it = lambda c: (call_name(c) or "").split(".")[-1] == name or (isinstance(c.func, ast.Attribute) and c.func.attr == name)
+    if (dotted(key_expr) or "").split(".")[-1] == name:
         return True
     if isinstance(key_expr, ast.Lambda):
-        return any(isinstance(c, ast.Call) and call_name(c) == "_path_ordering_key" for c in ast.walk(key_expr.body))
+        return any(isinstance(c, ast.Call) and is_it(c) for c in ast.walk(key_expr.body))
     r = prog.resolve_expr(fi.module, key_expr) if isinstance(key_expr, (ast.Name, ast.Attribute)) else None
     if r and r[0] == "func":
-        return any(isinstance(c, ast.Call) and call_name(c) == "_path_ordering_key" for c in walk_body(r[1].node))
+        return any(isinstance(c, ast.Call) and is_it(c) for c in walk_body(r[1].node))
     return False
 
 
-def _bucket_form(prog, ws):
+def _bucket_form(prog, ws, pk=None):
     """objects collected in one list per rank:  T = (a, b, c); T[_path_ordering_key(p)].append(o); ...; a + b + c
     -> (names per rank, joined in rank order?, node) or None"""
     cands = {}
@@ -578,7 +635,7 @@ def _bucket_form(prog, ws):
         if isinstance(c, ast.Call) and isinstance(c.func, ast.Attribute) and c.func.attr == "append" and isinstance(c.func.value, ast.Subscript) \
                 and isinstance(c.func.value.value, ast.Name) and c.func.value.value.id in cands:
             idx = c.func.value.slice
-            if isinstance(idx, ast.Call) and (call_name(idx) == "_path_ordering_key" or _key_reaches_ordering(prog, ws, idx.func)):
+            if isinstance(idx, ast.Call) and (call_name(idx) == "_path_ordering_key" or _key_reaches_ordering(prog, ws, idx.func, pk)):
                 hit = (c.func.value.value.id, c)
     if hit is None:
         return None
@@ -614,15 +671,21 @@ def po1(ctx, R):
     cfg = ctx.cfg(ws)
     reg = region(ctx, ws)
     # (1) the object list handed to the segment is sorted parents-first
-    sorts = []
+    pk = find_ordering_key(prog)
+    if pk is None:
+        R.unrecognised("writer::ordering key", ws.where(), "the function that ranks root < group < channel was not recognised")
+        return
+    sorts, other_sorts = [], []
     for f in reg:
         for c in walk_body(f.node):
             if isinstance(c, ast.Call):
                 key = next((k.value for k in c.keywords if k.arg == "key"), None)
                 if (isinstance(c.func, ast.Attribute) and c.func.attr == "sort") or call_name(c) == "sorted":
-                    if _key_reaches_ordering(prog, f, key):
+                    if _key_reaches_ordering(prog, f, key, pk):
                         sorts.append((f, c))
-    buckets = _bucket_form(prog, ws) if not sorts else None
+                    elif key is not None:
+                        other_sorts.append((f, c))
+    buckets = _bucket_form(prog, ws, pk) if not sorts else None
     if not sorts and buckets is not None:
         names, concat_ok, where_ = buckets
         if concat_ok:
@@ -635,7 +698,10 @@ def po1(ctx, R):
         # positive evidence of disorder: implicit parents are added behind the caller's objects and nothing reorders the list
         late = [c for c in walk_body(ws.node) if isinstance(c, ast.Call) and isinstance(c.func, ast.Attribute) and c.func.attr in ("append", "extend", "insert")
                 and any(isinstance(x, ast.Call) and call_name(x) in ("RootObject", "GroupObject") for x in ast.walk(c))]
-        if late:
+        if late and other_sorts:
+            R.unrecognised("writer.TdmsWriter.write_segment::objects sorted parents-first", other_sorts[0][0].where(other_sorts[0][1]),
+                           "the list is sorted, but by a key that was not recognised as the parents-first ranking")
+        elif late:
             R.violation("writer.TdmsWriter.write_segment::objects sorted parents-first", ws.where(late[0]), "no sort by _path_ordering_key on the way to the "
                         "segment although implicit parent objects are added behind the caller's objects (`%s`): the object list is no longer ordered root "
                         "first, then groups, so a channel can precede its group" % unparse(late[0])[:70])
@@ -653,7 +719,6 @@ def po1(ctx, R):
                 late += [n for n in after if n is not s and any(call_name(x) in (lst + ".append", lst + ".extend", lst + ".insert") for x in node_calls(n))]
             R.check(not late, "writer.TdmsWriter.write_segment::sort is the last change of the list", ws.where(c),
                     "no object is added after the parents-first sort", "objects are added to the list after it was sorted")
-    pk = prog.func("writer._path_ordering_key")
     p = pk.params[0]
     ranks = {}
     for kind, facts in (("root", {p + ".is_root": True, p + ".is_group": False, p + ".is_channel": False}),
